@@ -126,7 +126,7 @@ fn rename_nodes(r: &mut Regex, old: &str, new: &str) {
 
 pub fn profiles() -> Vec<Profile> {
     vec![
-        Profile { c11_shapes: true, max_rules: 6, ..Profile::full() },
+        Profile { max_rules: 6, ..Profile::text() },
         Profile { c11_shapes: true, nodeops: true, parts: true, skips: true, empty_rules: true, actions: true, preds: true, asserts: true, returns: true, ..Profile::base("nodeops-dense") },
         Profile { c11_shapes: true, choice: true, choice_weight: 6, nodeops: true, asserts: true, parts: true, ..Profile::base("choice-dense") },
         Profile { c11_shapes: true, pratt: true, nodeops: true, preds: true, parts: true, empty_rules: true, ..Profile::base("pratt-dense") },
